@@ -961,7 +961,7 @@ pub fn run_proc(ctx: &mut Ctx, c: &Corpus, verif: &str) -> Vec<Replay> {
     let mut rng = Rng::new(ctx.run_seed);
     let job = pool_job(ctx.seed, rng.below(POOL), c);
     let mut out = Vec::new();
-    let base_plan = ProcPlan { job: job.clone(), faults: vec![], keys: "00000000000000000000000000000000".to_string(), clock: None, scratch_tag: String::new(), env: vec![] };
+    let base_plan = ProcPlan { job: job.clone(), faults: vec![], keys: "00000000000000000000000000000000".to_string(), clock: None, scratch_tag: String::new(), env: vec![], stdout_full: false };
     let base = ctx.exec_proc(&base_plan, "C10", verif);
     if let Some(why) = &base.skipped {
         ctx.stats.inc(&format!("skipped:{}", why));
@@ -987,7 +987,7 @@ pub fn run_proc(ctx: &mut Ctx, c: &Corpus, verif: &str) -> Vec<Replay> {
                 }
             }
         }
-        let plan = ProcPlan { job: job.clone(), faults: kernel.clone(), keys: keys.clone(), clock, scratch_tag: tag.clone(), env: env_vars.clone() };
+        let plan = ProcPlan { job: job.clone(), faults: kernel.clone(), keys: keys.clone(), clock, scratch_tag: tag.clone(), env: env_vars.clone(), stdout_full: false };
         let rec = ctx.exec_proc(&plan, "C10", verif);
         ctx.stats.inc("evaluations");
         ctx.stats.note("key_pairs", keys.clone());
